@@ -779,6 +779,13 @@ def run(mon, spec):
                 bv = int(bv) if bt == "int" else float(bv)
             if op == "**":
                 bv = abs(bv)       # number ** angle: keep the base positive
+                if rng.random() < 0.3:
+                    # a base of a turn or more under a small exponent
+                    bv = rng.choice((400, 729.0, 1000, 1e4, 360.0, 361.5,
+                                     rng.uniform(360.0, 5000.0)))
+                    bt = "int" if isinstance(bv, int) else "float"
+                    av = rng.choice((0.5, -1.0, 1.0 / 3.0, 2.0, 0.25, 1.5,
+                                     -0.5, rng.uniform(-2.0, 3.0)))
             p = ["ref", op, av, bt, bv]
         else:
             op = rng.choice(list(INP))
